@@ -65,7 +65,8 @@ type Opts struct {
 	Push         bool `json:"push"`
 	NoBuiltin    bool `json:"nobuiltin"`
 	RecvUnblocks bool `json:"recvUnblocks"`
-	Free         bool `json:"free"` // free-running gates
+	Free         bool `json:"free"`    // free-running gates
+	BaseCtx      bool `json:"basectx"` // ServerOptions.NewContext hands out a context the scenario can end ("baseend")
 }
 
 // A Scenario is a sequence of steps.
@@ -91,14 +92,16 @@ type runner struct {
 	gen   int
 	nsend int
 
-	hgate    map[string]chan hcmd
-	cbCancel map[string]context.CancelFunc
-	batchOf  map[int64]string // goroutine id -> tag of first member of its batch
-	assigned []*jrpc2.Request // every request in assignment order (srv.assign)
-	waitDone chan struct{}
-	stats    map[string]int
-	running  map[string]bool // tags of handlers between HStart and HExit
-	rmu      sync.Mutex
+	hgate      map[string]chan hcmd
+	cbCancel   map[string]context.CancelFunc
+	batchOf    map[int64]string // goroutine id -> tag of first member of its batch
+	assigned   []*jrpc2.Request // every request in assignment order (srv.assign)
+	baseCtx    context.Context
+	baseCancel context.CancelFunc
+	waitDone   chan struct{}
+	stats      map[string]int
+	running    map[string]bool // tags of handlers between HStart and HExit
+	rmu        sync.Mutex
 }
 
 func (r *runner) gateL(tag string) chan hcmd {
@@ -447,6 +450,13 @@ func (r *runner) doStep(st Step) {
 		r.rec.Log("StopB")
 		r.srv.Stop()
 		r.rec.Log("StopE")
+	case "baseend": // the context every request context derives from ends
+		if r.baseCancel != nil {
+			r.rec.Log("BaseEnd")
+			r.baseCancel()
+		} else {
+			r.stats["diverged"]++
+		}
 	case "cancel":
 		r.rec.Log("CancelB", "id", st.ID)
 		r.srv.CancelRequest(st.ID)
@@ -618,8 +628,13 @@ func Run(t *testing.T, sc *Scenario, emit func(evs []vh.Event, stats map[string]
 		r.ch.InSendHook = func() { s.InOp("send", "s1") }
 		r.ch.InCloseHook = func() { s.InOp("close", "s1") }
 		conc := sc.Opts.Conc
-		r.srv = jrpc2.NewServer(assigner{r}, &jrpc2.ServerOptions{
-			Concurrency: conc, AllowPush: sc.Opts.Push, DisableBuiltin: sc.Opts.NoBuiltin})
+		sopts := &jrpc2.ServerOptions{Concurrency: conc, AllowPush: sc.Opts.Push, DisableBuiltin: sc.Opts.NoBuiltin}
+		if sc.Opts.BaseCtx {
+			r.baseCtx, r.baseCancel = context.WithCancel(context.Background())
+			defer r.baseCancel()
+			sopts.NewContext = func() context.Context { return r.baseCtx }
+		}
+		r.srv = jrpc2.NewServer(assigner{r}, sopts)
 		rec.Log("Start", "gen", 1, "ch", "s1")
 		r.srv.Start(r.ch)
 		r.startWaitStatus()
